@@ -9,7 +9,7 @@ RULE = ("sessions = a table of screen programs (stack operations, signals, raise
         "non-trivial per property: see harness/screen_check.py nontrivial()")
 
 MANIFEST = dict(
-    text="Partial (finding F18: order across loop levels). Proof (Coq, closed under the global context), for every session of the model — including type-ahead and reusable InputHandler objects: every ready signal is one the hand-off announced — the most recent requester gets exactly the line the reader thread took (the next typed line, EOF as the empty line), every earlier requester a failure; a line delivered to a screen's request is handed at once and unmodified to input() of that screen together with the arguments of THAT request; input() is called for nothing else (C06_lines_delivered for the full acceptor chk_C06, C06_delivered_at_once, C06_input_only_for_a_delivered_line, C06_lines_intact; C06_no_duplicate_delivery per handler object). The arguments clause holds since the fix of finding F15 (InputManager kept one args slot per screen; C06_args_overwritten_refuted_legacy exhibits the old behaviour on a legacy copy of the model). 'Lines are delivered in the order typed' is FALSE across loop levels (finding F18, a session reproduced on the implementation: the ready signal of an outer screen waits in the outer level while a modal screen opened in between is served the next line first); it is PROVED for every session whose trace shows no nested loop (C06_lines_in_order_partial: the texts of the successful deliveries, in trace order, embed order-preservingly into the typed lines — no well-formedness hypothesis; C06_inputs_among_deliveries, C06_inputs_in_order_partial for the calls of input(); C06_order_refuted: the hypothesis is needed); the order of deliveries is also evaluated directly on every implementation trace by the check, the F18 fingerprint being a known finding.",
+    text="Partial (finding F18: order across loop levels). Proof (Coq, closed under the global context), for every session of the model — including type-ahead and reusable InputHandler objects: every ready signal is one the hand-off announced — the most recent requester gets exactly the line the reader thread took (the next typed line, EOF as the empty line), every earlier requester a failure; a line delivered to a screen's request is handed at once and unmodified to input() of that screen together with the arguments of THAT request; input() is called for nothing else (C06_lines_delivered for the full acceptor chk_C06, C06_delivered_at_once, C06_input_only_for_a_delivered_line, C06_lines_intact; C06_no_duplicate_delivery per handler object). The arguments clause holds since the fix of finding F15 (InputManager kept one args slot per screen; C06_args_overwritten_refuted_legacy exhibits the old behaviour on a legacy copy of the model). 'Lines are delivered in the order typed' is FALSE across loop levels (finding F18, a session reproduced on the implementation: the ready signal of an outer screen waits in the outer level while a modal screen opened in between is served the next line first); it is PROVED for every session whose trace shows no nested loop (C06_lines_in_order_partial: the texts of the successful deliveries, in trace order, embed order-preservingly into the typed lines — no well-formedness hypothesis; C06_inputs_among_deliveries, C06_inputs_in_order_partial for the calls of input(); C06_no_modal_no_nested_loop / C06_lines_in_order_syntactic: a session whose command lists contain no push_screen_modal and that has no quit dialog never opens a nested loop, hence delivers in typed order; C06_order_refuted: the hypothesis is needed); the order of deliveries is also evaluated directly on every implementation trace by the check, the F18 fingerprint being a known finding.",
     note="Trusted: Coq kernel, extraction, harness (screen_worker.py records events through subclasses / name patching and releases typed lines when the loop is idle). " + "reader-thread timing: canonical (the line arrives when the loop is idle) and type-ahead (it arrives before the requesting callback continues); other arrival points are C19's subject; every other screen of the harness takes hidden (password) input, every third has an empty prompt; finding F18 (lines-out-of-order:ready-signal-waits-in-outer-level) is listed in known_findings.json; F15 is fixed (commit ccb066a).",
     technique="Coq theorem: a trace acceptor holds for every application session of an interpreter model of the screen layer over the MainLoop model; the same extracted acceptor judges traces of the real implementation; differential correspondence model<->/repo")
 
